@@ -26,7 +26,9 @@ import (
 // CreateClient, GetClientStatus, ChanCloseInit, channel / connection getters) is the real ibc-go
 // keeper; what is emulated is what core does *around* the application callbacks.
 
-var relayerAddr = sdk.AccAddress([]byte("verif-relayer-addr--"))
+// Relayer is the account that signs IBC messages (a funded genesis account on every chain).
+var Relayer = NewAcct("relayer")
+var relayerAddr = Relayer.Addr
 
 // Packet in flight.
 type Packet struct {
@@ -390,7 +392,13 @@ func deleteCommitment(s *State, ctx sdk.Context, pkt channeltypes.Packet) {
 // consensus state with the counterparty's latest committed block time. Only an Active client can be
 // updated.
 func RefreshClient(s *State, k *ibckeeper.Keeper, clientID string, cpHeight int64, cpTime time.Time) bool {
-	ctx := s.Ctx
+	if s.C.Rec != nil {
+		s.C.Rec.Ops = append(s.C.Rec.Ops, RecOp{Refresh: &RefreshOp{ClientID: clientID, Height: cpHeight, Time: cpTime}})
+	}
+	return refreshClient(s.Ctx, k, clientID, cpHeight, cpTime)
+}
+
+func refreshClient(ctx sdk.Context, k *ibckeeper.Keeper, clientID string, cpHeight int64, cpTime time.Time) bool {
 	if k.ClientKeeper.GetClientStatus(ctx, clientID) != ibcexported.Active {
 		return false
 	}
@@ -416,7 +424,13 @@ func RefreshClient(s *State, k *ibckeeper.Keeper, clientID string, cpHeight int6
 // ForceRefreshClient is RefreshClient for a gap during which relayers kept the client updated: the
 // status check is skipped (the client never went stale in reality), the newest header is stored.
 func ForceRefreshClient(s *State, k *ibckeeper.Keeper, clientID string, cpHeight int64, cpTime time.Time) bool {
-	ctx := s.Ctx
+	if s.C.Rec != nil {
+		s.C.Rec.Ops = append(s.C.Rec.Ops, RecOp{Refresh: &RefreshOp{ClientID: clientID, Height: cpHeight, Time: cpTime, Force: true}})
+	}
+	return forceRefreshClient(s.Ctx, k, clientID, cpHeight, cpTime)
+}
+
+func forceRefreshClient(ctx sdk.Context, k *ibckeeper.Keeper, clientID string, cpHeight int64, cpTime time.Time) bool {
 	cs, ok := k.ClientKeeper.GetClientState(ctx, clientID)
 	if !ok {
 		return false
